@@ -24,7 +24,7 @@ import (
 // reported generations must be non-decreasing, across failovers too.
 type coordC13 struct{}
 
-func (coordC13) NeedShadow() bool                                      { return false }
+func (coordC13) NeedShadow() bool                                     { return false }
 func (coordC13) CheckTick(*coordWorld, *coordTick) []xstate.Violation { return nil }
 
 func (coordC13) Check(w *coordWorld, st *coordStep) []xstate.Violation {
